@@ -241,6 +241,9 @@ class YAML(Filetype):
             return self.build_tree(path=path, options=options)
         except YAMLError as ye:
             return f'Error parsing {os.path.basename(path)}: {ye})'
+        except ValueError as ve:
+            # YAML values that have no node type (timestamps, sets): json.build_tree refuses them
+            return f'Error parsing {os.path.basename(path)}: {ve!s}'
 
     def get_default_formatter(self) -> YAMLFormatter:
         return YAMLFormatter.DEFAULT_INSTANCE
